@@ -40,6 +40,10 @@ def arrays(spec):
         # band 1 gets a smaller dynamic range than band 0: a cmax or cost taken from the wrong band differs
         left = np.stack([D.generic_image(ny, nx, 2 * b, seed, 0, HI if b == 0 else 70) for b in range(nb)])
         right = np.stack([D.generic_image(ny, nx, 2 * b + 1, seed, 0, HI if b == 0 else 70) for b in range(nb)])
+    if spec.get("gain"):
+        # high radiometry (e.g. 12-bit sensors): the same integer samples scaled and shifted
+        left = (left * np.float32(spec["gain"]) + np.float32(spec.get("offset", 0))).astype(np.float32)
+        right = (right * np.float32(spec["gain"]) + np.float32(spec.get("offset", 0))).astype(np.float32)
     lnames = ["r", "g"][:nb]  # one-letter names: the machine's band check iterates over the characters of the name
     rnames = list(lnames)
     if nb == 2 and spec.get("rswap"):
